@@ -616,4 +616,88 @@ theorem domain_supported (env : Env) (x : Val) (h : inDomainItems env x = true) 
             | some s => simp only [hs, Option.map_some, Option.some.injEq] at he; subst he; cases s <;> rfl
         exact seqCase xs hseq items hi
 
+theorem seqOk_of_supported (env : Env) (xs : List Val) (items : List Item)
+    (h : itemsOfSeq env xs = .ok items) (hu : ∀ it ∈ items, it ≠ .error .unsupported) : seqOk env xs = true := by
+  cases xs with
+  | nil => rfl
+  | cons e es =>
+    simp only [itemsOfSeq, ← isPair_eq] at h
+    simp only [seqOk]
+    cases hp : isPair env e with
+    | none => simp [hp] at h
+    | some b =>
+      cases b
+      · rfl
+      · simp only [hp, Except.ok.injEq] at h
+        subst h
+        simp only []
+        apply List.all_eq_true.mpr
+        intro y hy
+        have := hu (unpackPair env y) (List.mem_map_of_mem hy)
+        unfold unpackable
+        split
+        · rename_i heq; exact absurd heq this
+        · rfl
+
+/-- … and conversely: an input of the quantifier for which the model answers (call and every item)
+    is in the domain.  So `inDomainItems` is exactly "quantifier ∩ supported by the model". -/
+theorem domain_complete (env : Env) (x : Val) (hv : inDomainValues env x = true) (items : List Item)
+    (h : iteritems env x = .ok items) (hu : ∀ it ∈ items, it ≠ .error .unsupported) : inDomainItems env x = true := by
+  simp only [inDomainItems, hv, Bool.true_and]
+  have setCase : ∀ xs : List Val, itemsOfSet env xs = .ok items → setOk env xs = true := by
+    intro xs hs
+    cases xs with
+    | nil => rfl
+    | cons e es =>
+      simp only [itemsOfSet, ← isPair_fun] at hs
+      simp only [setOk, Bool.and_eq_true, Bool.not_eq_true']
+      split at hs
+      · rename_i hall
+        split at hs
+        · cases hs
+        · rename_i hidx
+          exact ⟨⟨hall, by simpa using hidx⟩, seqOk_of_supported env _ items hs hu⟩
+      · cases hs
+  cases x <;> simp only [iteritems] at h <;>
+    first
+      | rfl
+      | exact seqOk_of_supported env _ items h hu
+      | exact setCase _ h
+
+/-! ## Non-vacuity: concrete environments and values, evaluated by the model -/
+
+def envEx : Env := [
+  { flavour := .namedtuple, fields := [("a".toList, .scalar .str), ("b".toList, .scalar .int)] },
+  { flavour := .plain, fields := [("a".toList, .scalar .int), ("_p".toList, .scalar .int)] },
+  { flavour := .dataclass, fields := [("x".toList, .coll .vartuple (.scalar .int))] } ]
+
+/-- a named tuple whose first field is the 2-character string 'ab' -/
+def ntAb : Val := .inst 0 [("a".toList, .str "ab".toList), ("b".toList, .int 1)]
+/-- an instance with a private attribute -/
+def plainP : Val := .inst 1 [("a".toList, .int 1), ("_p".toList, .int 2)]
+
+example : inDomainItems envEx ntAb = true := by rfl
+example : iteritems envEx ntAb = .ok [.ok (.str "a".toList, .str "ab".toList), .ok (.str "b".toList, .int 1)] := by rfl
+example : givenPairs envEx ntAb = false := by rfl
+example : inDomainItems envEx plainP = true := by rfl
+example : iteritems envEx plainP = .ok [.ok (.str "a".toList, .int 1)] := by rfl
+example : itervalues envEx plainP = .ok [.int 1] := by rfl
+/-- a one-shot iterator of pairs: the peeked pair is delivered first -/
+example : iteritems [] (.iter [.tuple [.int 1, .int 2], .tuple [.int 3, .int 4]]) = .ok [.ok (.int 1, .int 2), .ok (.int 3, .int 4)] := by rfl
+example : givenPairs [] (.iter [.tuple [.int 1, .int 2], .tuple [.int 3, .int 4]]) = true := by rfl
+/-- a one-shot iterator of non-pairs: the peeked element gets index 0 -/
+example : iteritems [] (.iter [.int 7, .tuple [.int 1, .int 2]]) = .ok [.ok (.int 0, .int 7), .ok (.int 1, .tuple [.int 1, .int 2])] := by rfl
+/-- the first element decides: a later non-pair surfaces when the consumer unpacks it -/
+example : iteritems [] (.list [.tuple [.int 1, .int 2], .int 5]) = .ok [.ok (.int 1, .int 2), .error .type] := by rfl
+example : inDomainItems [] (.list [.tuple [.int 1, .int 2], .int 5]) = true := by rfl
+/-- a list of named tuples with two fields is an iterable of pairs -/
+example : iteritems envEx (.list [ntAb]) = .ok [.ok (.str "ab".toList, .int 1)] := by rfl
+example : iteritems [] (.str "ab".toList) = .ok [.ok (.int 0, .str "a".toList), .ok (.int 1, .str "b".toList)] := by rfl
+example : iteritems [] (.dict [(.str "k".toList, .int 1)]) = .ok [.ok (.str "k".toList, .int 1)] := by rfl
+/-- outside the domain (the model answers `unsupported`): indices of a set, a first element of an unmodelled class -/
+example : inDomainItems [] (.set [.int 1, .int 2]) = false := by rfl
+example : inDomainItems [] (.list [.uuid 1]) = false := by rfl
+example : inDomainItems [] (.set [.tuple [.int 1, .int 2], .tuple [.int 3, .int 4]]) = true := by rfl
+example : inDomainValues [] (.int 3) = false := by rfl
+
 end Typelib.C18
